@@ -18,7 +18,7 @@ from .index import (AnalysisError, EnumVal, ClassInfo, FuncInfo, Module, NotCons
 from .values import (Top, GE2, Ref, ClassVal, FuncVal, BoundMeth, Builtin, ModuleVal,
                      SuperVal, AbsSeq, LenOf, SymLen, HObj, Exc, State, vkey)
 
-MAX_DEPTH = 14
+MAX_DEPTH = 40
 MAX_STATES = 4000000
 
 
